@@ -227,8 +227,8 @@ class VLoop(asyncio.SelectorEventLoop):
         def lp(j):
             if j.longpark is True:
                 return True
-            if j.longpark == 'job-end' and j.label == 'job-end':
-                # held where its work is done but its result not yet delivered, for a bounded virtual time
+            if j.longpark in ('job-end', 'start') and j.label == j.longpark:
+                # held before it starts, or where its work is done but its result not yet delivered, for a bounded virtual time
                 if j.release_at is None:
                     j.release_at = self.vt + j.park_secs
                 return self.vt < j.release_at
